@@ -27,10 +27,11 @@ def init_cases(draw):
     dom = draw(gen.domains(2, 4, 1, 3, cap=81))
     attrs, shape = dom['attrs'], dom['shape']
     witness = [draw(st.integers(0, s - 1)) for s in shape]
-    zeros = draw(inf.zero_specs(attrs, shape, witness)) if draw(st.integers(0, 3)) == 0 else []
-    return {'domain': dom, 'witness': witness, 'zeros': zeros, 'warm_start': draw(st.booleans()),
+    profile = draw(st.sampled_from(['cold', 'cold', 'cold', 'cold_zeros', 'warm', 'warm_zeros', 'warm_final', 'warm_final_zeros']))
+    zeros = draw(inf.zero_specs(attrs, shape, witness)) if profile.endswith('zeros') else []
+    return {'domain': dom, 'witness': witness, 'zeros': zeros, 'warm_start': profile.startswith('warm'),
             'data_seed': draw(st.integers(0, 2**31 - 1)), 'true_total': draw(st.sampled_from([1.0, 20.0, 500.0])),
-            'final_solver': draw(st.sampled_from(['MD', 'RDA', 'IG'])), 'final_check': draw(st.integers(0, 5)) == 0}
+            'final_solver': draw(st.sampled_from(['MD', 'RDA', 'IG'])), 'final_check': 'final' in profile}
 
 
 meas_idx = st.lists(st.fixed_dictionaries({
@@ -194,14 +195,18 @@ def final_check(state, out):
     A, b = inf.stacked(meas, state.attrs, state.shape)
     zmask = inf.zero_mask(init['zeros'], state.attrs, state.shape).flatten() if init['zeros'] else None
     if zmask is not None and zmask.any():
-        return     # the certified oracle below has no support constraint; zeros are covered by C10
+        A = A[:, ~zmask]          # optimum over tables supported on the structurally possible cells only
+        state.flags.add('final_with_zeros')
     for mode in ('warm', 'cold'):
         excess = []
+        thetas = []
         for T in c03.LEVELS:
             if mode == 'warm':
                 eng = state.engine
             else:
                 eng = mbi.FactoredInference(state.domain, warm_start=False)
+            if mode == 'cold':
+                eng = mbi.FactoredInference(state.domain, warm_start=False, structural_zeros=copy.deepcopy(state.zeros_copy))
             eng.iters = T
             model = eng.estimate([m.tuple for m in build(state, op)], total=op['total'], engine=op['solver'])
             tot = float(model.total)
@@ -212,8 +217,14 @@ def final_check(state, out):
                 if not gap <= 1e-9 * (f_unif + 1.0):
                     out.inconclusive = True; return
             L = inf.loss_from_answers(meas, lambda proj: model.project(tuple(proj)).values)
+            snap = np.concatenate([np.where(np.isfinite(model.potentials[c].values), model.potentials[c].values, 0.0).flatten() for c in model.cliques])
+            if thetas and thetas[-1].shape == snap.shape and float(np.max(np.abs(thetas[-1] - snap))) < 0.05 * (float(np.ptp(snap)) + 1.0) and op['solver'] == 'MD':
+                out.extra['md_step_collapsed'] = True       # root-cause signature of F21: the potentials move by < 5% of their spread between T/4 and T iterations
+            thetas.append(snap)
             off = inf.theta_offset(model)
             out.extra['theta_offset'] = max(out.extra.get('theta_offset', 0.0), off)
+            if L < (f_hi - gap) - 1e-6 * (f_unif + 1.0):
+                return out.fail('%s_start_below_feasible_optimum' % mode, '%s start with %s: loss %r is below the certified minimum %r over tables supported on the structurally possible cells (a different optimum than a cold start reaches)' % (mode, op['solver'], L, f_hi - gap))
             denom = f_unif - f_hi
             if denom <= 1e-3 * f_unif or denom <= 1e-12:
                 e = 0.0 if L - f_hi <= 1e-6 * (f_unif + 1e-12) + 1e-12 else (L - f_hi) / max(denom, 1e-300)
@@ -302,4 +313,8 @@ def _md_stalled(case, outc):
     return outc.extra.get('theta_offset', 0.0) >= 1e6 and (any(o.get('solver') == 'MD' for o in case.get('ops', [])) or case.get('init', {}).get('final_solver') == 'MD')
 
 
-KNOWN = {'md_step_doubling': _md_stalled}
+def _md_collapsed(case, outc):
+    return bool(outc.extra.get('md_step_collapsed')) and case.get('init', {}).get('final_solver') == 'MD'
+
+
+KNOWN = {'md_step_doubling': _md_stalled, 'md_step_collapsed': _md_collapsed}
